@@ -45,7 +45,8 @@ struct Written {
 fn write(w: &World, net: &Net, wi: usize, kind: usize, rng: &mut Rng) -> Result<Written, String> {
     let node = &net.nodes[wi];
     let signer = SigningKey::from_bytes(&rng.array::<32>());
-    let value = rng.blob(1, 60);
+    // a quarter of the values are close to the 1000-byte limit (datagrams of 1.1 - 1.8 kB with 20 nodes listed)
+    let value = if rng.chance(1, 4) { rng.blob(870, 1000) } else { rng.blob(1, 60) };
     w.set_trace(TraceLevel::Full);
     w.clear_trace();
     let mut out = Written { kind, target: Id::from([0; 20]), value: value.clone(), item: None, signer: signer.clone(), port: None, writer: wi, ackers: HashSet::new() };
@@ -312,6 +313,25 @@ pub fn scenario(r: &mut Report, p: &Params) {
             ri = new_ri;
             r.add("nodes_crashed", victims.len() as u64);
         }
+        // "a lookup started afterwards": a third of the reads start 46 s .. 31 min after the put
+        let mut delay_s = 0;
+        if busy_tasks.is_empty() && rng.chance(1, 3) {
+            delay_s = *rng.pick(&[46u64, 120, 360, 960, 1860]);
+            // adaptive ("client") nodes on a confirmed public address turn into servers at their first
+            // 15-minute refresh; the network then has more than 20 storing nodes and leaves the
+            // deterministic part of the statement, so such worlds stay below 14 virtual minutes
+            if p.clients > 0 && w.now() + delay_s * SEC >= 14 * 60 * SEC {
+                delay_s = 46;
+            }
+            if p.clients > 0 && w.now() + delay_s * SEC >= 14 * 60 * SEC {
+                delay_s = 0;
+            }
+        }
+        if delay_s > 0 {
+            w.run_for(delay_s * SEC);
+            r.count("delayed_reads");
+            r.add("delayed_reads_virtual_seconds", delay_s);
+        }
         // premise: reader has a non-empty routing table
         let info = w.block_on(net.nodes[ri].adht.info(), 5 * SEC);
         let table = info.as_ref().map(|i| if kind == 3 { i.singing_peers_routing_table_size() } else { i.routing_table_size() }).unwrap_or(0);
@@ -363,6 +383,9 @@ pub fn scenario(r: &mut Report, p: &Params) {
             Err(e) => r.violation(&format!("read/{class}/did-not-complete"), &format!("reader lookup: {e}"), case.clone(), json!({"kind": kinds[kind], "round": round})),
             Ok(true) => {
                 r.count(&format!("found/{class}/{}", kinds[kind]));
+                if delay_s > 0 {
+                    r.count(&format!("found_after_delay/{}", kinds[kind]));
+                }
                 nontrivial = true;
             }
             Ok(false) => {
@@ -375,7 +398,7 @@ pub fn scenario(r: &mut Report, p: &Params) {
                     &format!("read/{class}/not-found/{}", kinds[kind]),
                     "a value whose put returned Ok was not returned by a later lookup on another node",
                     case.clone(),
-                    json!({"kind": kinds[kind], "round": round, "ackers": writer_addr_known.ackers.len(), "crashed": crashed.len(), "reader_lookup": lookup_summary(&net)}),
+                    json!({"kind": kinds[kind], "round": round, "ackers": writer_addr_known.ackers.len(), "crashed": crashed.len(), "read_delay_s": delay_s, "reader_lookup": lookup_summary(&net)}),
                 );
             }
         }
